@@ -31,7 +31,7 @@ ESCAPING = ["stack", "heap", "static"]   # the victim hands the buffer address t
 NOESC = "stack-noescape"                 # the address goes to the erase function only; the spy finds the dead frame by a stack scan
 HUGE_LO, HUGE_HI = 4096, 12288           # 'huge' non-escaping targets: block-size thresholds inside the library's set primitives
 SCAN_BYTES = 32768                       # stack bytes below the caller's pad that the spy copies and scans (spy.c C18_SCAN)
-SOLO_PROGRAMS = {"quick": 0, "thorough": 0}   # single-call-site programs per tier (see gen_program(solo=True))
+SOLO_PROGRAMS = {"quick": 1, "thorough": 4}   # single-call-site programs per tier (see gen_program(solo=True))
 NOESC_MIN = 16                           # the scan recognises runs of >= 8 pattern bytes; targets are at least one 16-byte block
 SHAPES = ["direct", "helper", "struct"]
 
